@@ -25,18 +25,23 @@ PROP = 'C11'
 
 # ---- (a) -------------------------------------------------------------------------------------
 
-def make_stub_class(name, spec_holder):
+def make_stub_class(name, spec_holder, rename=True):
     from emsarray.conventions._base import Convention
 
     class Stub(Convention):
+        tag = name
+
         @classmethod
         def check_dataset(cls, dataset):
-            return spec_holder[cls.__name__]
-    Stub.__name__ = Stub.__qualname__ = name
+            return spec_holder[cls.tag]
+    if rename:
+        Stub.__name__ = Stub.__qualname__ = name
+    # rename=False: classes made by a factory (a loop, a re-executed notebook cell) share module and qualified name;
+    # they are still different conventions
     return Stub
 
 
-def body_registry(ctx, n_manual, n_entry, order):
+def body_registry(ctx, n_manual, n_entry, order, rename=True):
     from emsarray.conventions._registry import ConventionRegistry
     names = [f'M{k}' for k in range(n_manual)] + [f'E{k}' for k in range(n_entry)]
     spec = {}
@@ -48,7 +53,7 @@ def body_registry(ctx, n_manual, n_entry, order):
     # whether a class matches is decided here (forks): check_dataset returns None or the specificity
     for nm in names:
         spec[nm] = values[nm] if bool(matches[nm]) else None
-    classes = {nm: make_stub_class(nm, spec) for nm in names}
+    classes = {nm: make_stub_class(nm, spec, rename) for nm in names}
     reg = ConventionRegistry()
     manual = [nm for nm in names if nm.startswith('M')]
     entry = [nm for nm in names if nm.startswith('E')]
@@ -63,7 +68,7 @@ def body_registry(ctx, n_manual, n_entry, order):
         ctx.check(chosen is None, 'a dataset nothing matches is refused (None)')
         return
     ctx.check(chosen is not None, 'a matching convention is chosen')
-    cn = chosen.__name__
+    cn = chosen.tag
     ctx.check(cn in live, 'the chosen convention matched the dataset')
     ctx.check(And(*[values[cn] >= values[o] for o in live]), 'the chosen convention has the highest specificity')
     # a manually registered convention wins ties
@@ -73,10 +78,10 @@ def body_registry(ctx, n_manual, n_entry, order):
     # determinism and independence of non-matching registrations
     ctx.check(reg.guess_convention(ds) is chosen, 'the same answer on repetition')
     spec['Extra'] = None
-    reg.add_convention(make_stub_class('Extra', spec))
+    reg.add_convention(make_stub_class('Extra', spec, rename))
     ctx.check(reg.guess_convention(ds) is chosen, 'registering a convention that does not match changes nothing')
     ml = reg.match_conventions(ds)
-    ctx.check([c.__name__ for c, s in ml if True] and And(*[a[1] >= b[1] for a, b in zip(ml, ml[1:])]) if len(ml) > 1 else True,
+    ctx.check([c.tag for c, s in ml if True] and And(*[a[1] >= b[1] for a, b in zip(ml, ml[1:])]) if len(ml) > 1 else True,
               'match_conventions lists matches from most to least specific')
 
 
@@ -97,9 +102,13 @@ def body_ugrid_detector(ctx):
     role = ctx.string('cf_role', ROLE_SPELLINGS)
     td = ctx.int('topology_dimension')
     has_attr = ctx.bool('has_conventions_attr')
+    has_td = ctx.bool('has_topology_dimension')
     ds = builders.ugrid('tq')
     ds['mesh'].attrs['cf_role'] = role
-    ds['mesh'].attrs['topology_dimension'] = td
+    if bool(has_td):
+        ds['mesh'].attrs['topology_dimension'] = td
+    else:
+        ds['mesh'].attrs.pop('topology_dimension', None)      # a mesh variable that does not say it is 2-D
     if bool(has_attr):
         ds.attrs['Conventions'] = conv
     else:
@@ -107,7 +116,7 @@ def body_ugrid_detector(ctx):
     got = UGrid.check_dataset(ds)
     marker = And(has_attr, conv.__contains__('UGRID')) if ctx.symbolic else (bool(has_attr) and 'UGRID' in conv)
     is_mesh = (role == 'mesh_topology')
-    two_d = same(td, 2)
+    two_d = And(has_td, same(td, 2))
     ctx.check(Iff(got is not None, And(marker, is_mesh, two_d)),
               'UGRID matches exactly with its Conventions marker and a mesh variable of topology dimension 2')
     if got is not None:
@@ -287,6 +296,9 @@ def cases(tier):
         for order in range(nperm):
             yield Case(f'registry:m{n_manual}:e{n_entry}:order{order}', body_registry,
                        dict(n_manual=n_manual, n_entry=n_entry, order=order), max_paths=20000, split=16)
+            if n_manual + n_entry >= 3 or not q:
+                yield Case(f'registry:m{n_manual}:e{n_entry}:order{order}:same-qualname', body_registry,
+                           dict(n_manual=n_manual, n_entry=n_entry, order=order, rename=False), max_paths=20000, split=16)
     yield Case('detector:ugrid', body_ugrid_detector, patches=_ugrid_patches, max_paths=5000)
     for rank in (1, 2):
         yield Case(f'detector:cf{rank}d', body_cf_detector, dict(rank=rank), max_paths=100000, split=32)
